@@ -7,12 +7,15 @@ the observer-independent part of an operation are collected in `Sane` (Proofs/Le
   * no user parameter called `method` (open finding: collides with the keyword of stage_pywbem_args),
   * arguments and result are `recordable` (open findings: plain float, datetime/timedelta, ill-formed
     bytes and foreign types make TestClientRecorder.toyaml / yaml.dump raise),
-  * the CIM-XML extension headers do not contain an `Authorization` field (they never do),
+  * (discharged: the CIM-XML extension headers cannot contain an `Authorization` field — their names are part of
+    the model now, `noAuth_headers`),
   * list results are homogeneous w.r.t. having a `path` attribute.
 Every excluded input class has a negation witness below.
 -/
 import Pywbem.Model.Observer
 import Proofs.Lemmas.ObserverOp
+import Proofs.Lemmas.Statistics
+import Proofs.Lemmas.ObserverProto
 
 namespace C19
 open Pywbem.Proto Pywbem.Model.Utf8 Pywbem.Model.ToYaml Pywbem.Model.Observer
@@ -146,12 +149,7 @@ theorem C19_noninterference_history (c : Conn) (b64 : Str → Str) (calls : List
 example : Sane { method := ['G', 'I'], kwargs := [⟨['k'], [], .cimObj "CIMClassName" [.str ['C'], .none, .none]⟩] }
     (okCore (.list [.cimInt 1, .strSub ['x']])) ∧
     srvOk (connWith [.log { apiLevel := some .all, httpLevel := some (.maxLen 1) }, .tcr {}] true).lastSrvTime := by
-  refine ⟨⟨by decide, by decide, ?_, ?_⟩, trivial⟩
-  · intro req h
-    simp only [okCore, Except.ok.injEq] at h
-    subst h
-    intro x hx
-    simp at hx
+  refine ⟨⟨by decide, by decide, ?_⟩, trivial⟩
   · intro b r h
     simp only [okCore, Except.ok.injEq] at h
     subst h
@@ -222,6 +220,70 @@ theorem C19_disabled_recorders_silent (v : Variant) (c : Conn) (b64 : Str → St
     (hd : ∀ r ∈ c.recorders, disabledRec r) : (runOp v c b64 call core).events = [] :=
   runOp_silent v c b64 call core hd
 
+/-! ### the arithmetic of pywbem/_statistics.py (detailed model Model/Statistics.lean) -/
+
+/-- after ANY history of the low-level API (start_timer, stop_timer on any object ever handed out — also twice, also
+    after reset —, reset, enable, disable; any clock values, lengths, server times) every OperationStatistic satisfies:
+    exception count ≤ count; nothing measured ⇒ Σtime = 0, min = inf, max = 0; otherwise
+    min·count ≤ Σtime ≤ max·count and min ≤ max (so min ≤ avg ≤ max) -/
+theorem C19_statistics_invariant (ops : List Pywbem.Model.Statistics.Op) :
+    ∀ p ∈ (Pywbem.Model.Statistics.run {} ops).1.stats.ops, Proofs.Lemmas.Statistics.Inv p.2 :=
+  Proofs.Lemmas.Statistics.allInv_run ops {} (by intro p hp; simp at hp)
+
+/-- a stop_timer call either measures — returns the elapsed time, updates exactly the statistic of the handle's
+    name by the `stop` arithmetic, touches no other statistic — or changes nothing (disabled: None; the dummy, an
+    object orphaned by reset(), or a timer that does not run: RuntimeError) -/
+theorem C19_statistics_stop_measures_or_nothing (s : Pywbem.Model.Statistics.Stats)
+    (hd : Pywbem.Model.Statistics.Handle) (now : Int) (a b c : Option Int) (e : Bool) :
+    ((s.stopTimer hd now a b c e).1 = s ∧ ∀ d, (s.stopTimer hd now a b c e).2 ≠ .dt d) ∨
+    (∃ n t0, hd = .named n s.gen ∧ s.enabled = true ∧
+      (Proofs.Lemmas.Statistics.get s n).startTime = some t0 ∧
+      (s.stopTimer hd now a b c e).2 = .dt (now - t0) ∧
+      Proofs.Lemmas.Statistics.get (s.stopTimer hd now a b c e).1 n =
+        (Proofs.Lemmas.Statistics.get s n).stop t0 now a b c e ∧
+      (∀ m, m ≠ n → Proofs.Lemmas.Statistics.get (s.stopTimer hd now a b c e).1 m =
+        Proofs.Lemmas.Statistics.get s m) ∧
+      (s.stopTimer hd now a b c e).1.enabled = s.enabled ∧ (s.stopTimer hd now a b c e).1.gen = s.gen) :=
+  Proofs.Lemmas.Statistics.stopTimer_cases s hd now a b c e
+
+/-- start_timer … stop_timer on the returned object with statistics enabled: counted exactly once under that
+    name, whether the operation raised (`e`) or not; elapsed time = clock difference; nobody else's counters move -/
+theorem C19_statistics_pair_counts_once (s : Pywbem.Model.Statistics.Stats) (n : List Char) (t1 t2 : Int)
+    (a b c : Option Int) (e : Bool) (he : s.enabled = true) :
+    ((s.startTimer n t1).1.stopTimer (s.startTimer n t1).2 t2 a b c e).2 = .dt (t2 - t1) ∧
+    (Proofs.Lemmas.Statistics.get ((s.startTimer n t1).1.stopTimer (s.startTimer n t1).2 t2 a b c e).1 n).count =
+      (Proofs.Lemmas.Statistics.get s n).count + 1 ∧
+    (Proofs.Lemmas.Statistics.get ((s.startTimer n t1).1.stopTimer (s.startTimer n t1).2 t2 a b c e).1 n).excCount =
+      (Proofs.Lemmas.Statistics.get s n).excCount + (if e then 1 else 0) ∧
+    (Proofs.Lemmas.Statistics.get ((s.startTimer n t1).1.stopTimer (s.startTimer n t1).2 t2 a b c e).1 n).timeSum =
+      (Proofs.Lemmas.Statistics.get s n).timeSum + (t2 - t1) ∧
+    (Proofs.Lemmas.Statistics.get ((s.startTimer n t1).1.stopTimer (s.startTimer n t1).2 t2 a b c e).1 n).startTime =
+      none ∧
+    (∀ m, m ≠ n →
+      Proofs.Lemmas.Statistics.get ((s.startTimer n t1).1.stopTimer (s.startTimer n t1).2 t2 a b c e).1 m =
+      Proofs.Lemmas.Statistics.get s m) :=
+  Proofs.Lemmas.Statistics.start_stop_pair s n t1 t2 a b c e he
+
+/-- Statistics.reset(): refused (returns False, nothing changes) exactly while some stored statistic has a running
+    timer; otherwise all statistics are dropped -/
+theorem C19_statistics_reset (s : Pywbem.Model.Statistics.Stats) :
+    ((∃ p ∈ s.ops, p.2.startTime.isSome = true) ∧ s.reset = (s, false)) ∨
+    ((∀ p ∈ s.ops, p.2.startTime = none) ∧ s.reset = ({ s with ops := [], gen := s.gen + 1 }, true)) :=
+  Proofs.Lemmas.Statistics.reset_cases s
+
+/-- a disabled container measures nothing: start_timer hands out the dummy, stop_timer returns None -/
+theorem C19_statistics_disabled_inert (s : Pywbem.Model.Statistics.Stats) (hd : Pywbem.Model.Statistics.Handle)
+    (n : List Char) (now : Int) (a b c : Option Int) (e : Bool) (h : s.enabled = false) :
+    s.startTimer n now = (s, .dummy) ∧ s.stopTimer hd now a b c e = (s, .none) :=
+  Proofs.Lemmas.Statistics.disabled_inert s hd n now a b c e h
+
+/-- non-vacuity: a history with nested timers, a refused reset, a failed operation and a stop on a stale handle -/
+example : (Pywbem.Model.Statistics.run {} [.enable, .start ['A'] 10, .start ['B'] 11, .reset,
+      .stop 1 15 (some 100) (some 7) none true, .stop 0 20 (some 5) none (some 3) false, .stop 0 21 none none none false,
+      .reset, .stop 0 30 none none none false]).2 =
+    [.unit, .handle (.named ['A'] 0), .handle (.named ['B'] 0), .resetDone false, .stopped (.dt 4), .stopped (.dt 10),
+     .stopped .runtimeError, .resetDone true, .stopped .runtimeError] := by decide +kernel
+
 /-! ### last_raw_reply / last_raw_request -/
 
 /-- a 200 response with an acceptable content type: last_raw_reply is exactly the bytes received and
@@ -283,6 +345,97 @@ theorem C19_last_raw_request_fails_at (data : List Char) : xmlDecl ++ encode dat
   simp only [List.length_append] at this
   have hx : xmlDecl.length = 40 := by decide
   omega
+
+/-- last_raw_request / last_raw_reply / last_reply_len as a state machine over ANY history of operations (failing
+    ones included): the final values are the fold of `bookStep` — an operation whose request could not be built
+    leaves them alone, every other one sets the request text and either the bytes wbem_request returned or
+    (None, 0); observers never enter -/
+theorem C19_bookkeeping_history (b64 : Str → Str) : ∀ (calls : List (Call × Core)) (c : Conn),
+    (∀ p ∈ calls, Sane p.1 p.2) → srvOk c.lastSrvTime →
+    bookOf (runOpsConn Variant.fixed c b64 calls) = calls.foldl (bookStep c.info.creds b64) (bookOf c)
+  | [], _, _, _ => rfl
+  | p :: rest, c, hs, hsrv => by
+    have hsp := hs p (by simp)
+    obtain ⟨_, hsrv', hinfo, _⟩ := runOp_spec c b64 p.1 p.2 hsp hsrv
+    have ih := C19_bookkeeping_history b64 rest (runOp Variant.fixed c b64 p.1 p.2).conn
+      (fun q hq => hs q (by simp [hq])) hsrv'
+    simp only [runOpsConn, List.foldl_cons]
+    rw [ih, hinfo, runOp_book c b64 p.1 p.2 hsp hsrv]
+
+/-- … hence the bookkeeping after a history is the same with and without observers -/
+theorem C19_bookkeeping_unobservable (b64 : Str → Str) (calls : List (Call × Core)) (c : Conn)
+    (hs : ∀ p ∈ calls, Sane p.1 p.2) (hsrv : srvOk c.lastSrvTime) :
+    bookOf (runOpsConn Variant.fixed c b64 calls) = bookOf (runOpsConn Variant.fixed c.bare b64 calls) := by
+  rw [C19_bookkeeping_history b64 calls c hs hsrv,
+    C19_bookkeeping_history b64 calls c.bare hs (by simpa [Conn.bare] using hsrv)]
+  rfl
+
+/-! ### connections as `WBEMConnection(...)` creates them: the state hypothesis is discharged -/
+
+/-- a new connection (any credentials, statistics on or off) with any recorders added in any order, debug on or
+    off: every history of operations has the same outcomes as on the bare connection.  (`srvOk`, the hypothesis
+    on the connection state of the theorems above, holds initially and is preserved.) -/
+theorem C19_new_connection_noninterference (info : ConnInfo) (statsEnabled debug : Bool) (recs : List Recorder)
+    (b64 : Str → Str) (calls : List (Call × Core)) (hs : ∀ p ∈ calls, Sane p.1 p.2) :
+    runOps Variant.fixed { (Conn.new info statsEnabled).addRecorders recs with debug := debug } b64 calls =
+    runOps Variant.fixed (Conn.new info false) b64 calls := by
+  have hf := addRecorders_fields recs (Conn.new info statsEnabled)
+  have hsrv : srvOk ({ (Conn.new info statsEnabled).addRecorders recs with debug := debug } : Conn).lastSrvTime := by
+    show srvOk ((Conn.new info statsEnabled).addRecorders recs).lastSrvTime
+    rw [hf.1]; trivial
+  rw [C19_history_outcomes_are_core_outcomes b64 calls _ hs hsrv,
+    C19_history_outcomes_are_core_outcomes b64 calls (Conn.new info false) hs trivial]
+  have : ({ (Conn.new info statsEnabled).addRecorders recs with debug := debug } : Conn).info = info := by
+    show ((Conn.new info statsEnabled).addRecorders recs).info = info
+    rw [hf.2.1]; rfl
+  rw [this]
+  rfl
+
+/-- add_operation_recorder refuses a second recorder of the same class (ValueError) and changes nothing then -/
+theorem C19_add_recorder_same_class_refused (c : Conn) (r : Recorder) (h : c.recorders.any (sameClass r) = true) :
+    raisedName (c.addRecorderChecked r) = some "ValueError" := by
+  simp [Conn.addRecorderChecked, h, raisedName, throw, throwThe, MonadExceptOf.throw, Exc.name, PyExc.name]
+
+/-- conn.operation_recorder_enabled = False silences every recorder for every following operation -/
+theorem C19_recorders_disabled_by_setter (v : Variant) (c : Conn) (b64 : Str → Str) (call : Call) (core : Core) :
+    (runOp v (c.setRecordersEnabled false) b64 call core).events = [] := by
+  apply runOp_silent
+  intro r hr
+  simp only [Conn.setRecordersEnabled, List.mem_map] at hr
+  obtain ⟨r0, _, rfl⟩ := hr
+  cases r0 <;> simp [disabledRec]
+
+/-! ### the recorder protocol -/
+
+/-- every finished operation (returned or raised) makes each enabled TestClientRecorder of the connection write
+    exactly one test case — and nobody else any (disabled recorders, log recorders) -/
+theorem C19_one_testcase_per_enabled_recorder (c : Conn) (b64 : Str → Str) (call : Call) (core : Core)
+    (hs : Sane call core) (hsrv : srvOk c.lastSrvTime) :
+    Proofs.Lemmas.ObserverProto.tcCount (runOp Variant.fixed c b64 call core).events =
+      Proofs.Lemmas.ObserverProto.nTcrOn c.recorders :=
+  Proofs.Lemmas.ObserverProto.runOp_testcases c b64 call core hs hsrv
+
+/-- the prologue of every operation resets what the recorders staged for the previous one -/
+theorem C19_prologue_reset_clears_staging (pull : Bool) (t : TcrRec) :
+    resetOne pull (.tcr t) = (.tcr { enabled := t.enabled, pullOp := pull }, [], none) := rfl
+
+/-- wbem_request, before sending, clears the staged response of every TestClientRecorder: a test case written after
+    a transport failure can never carry the response of an earlier request -/
+theorem C19_request_stage_clears_response (hs : List Hdr) (target : Str) (body : Bytes) (t : TcrRec) :
+    ∃ t', stageRequestOne hs target body (.tcr t) = (.tcr t', [], none) ∧
+      t'.respStatus = none ∧ t'.respHeaders = none ∧ t'.respPayload = none ∧ t'.reqPayload = some body :=
+  ⟨_, rfl, rfl, rfl, rfl, rfl⟩
+
+/-- non-vacuity: two recorders, both enabled, a failing transport: one test case, three log records -/
+example : Proofs.Lemmas.ObserverProto.tcCount (runOp Variant.fixed
+    (connWith [.log { apiLevel := some .paths, httpLevel := some .summary }, .tcr {}] true) id
+    { method := ['G', 'I'], kwargs := [] }
+    { okCore .none with send := (fun _ _ => .raised ⟨.named "ConnectionError", []⟩) }).events = 1 ∧
+    (runOp Variant.fixed
+    (connWith [.log { apiLevel := some .paths, httpLevel := some .summary }, .tcr {}] true) id
+    { method := ['G', 'I'], kwargs := [] }
+    { okCore .none with send := (fun _ _ => .raised ⟨.named "ConnectionError", []⟩) }).events.length = 4 := by
+  decide +kernel
 
 /-! ### the password -/
 
